@@ -12,7 +12,7 @@ PREP = {"e2e.C01.roundtrip": "w.", "e2e.C07.corrupt": "w."}
 
 # ops whose implementation observation carries extra statistics after the first word (e.g. "same ok",
 # "same conferr"): only the first word is compared with the model's answer
-FIRST_WORD_FNS = {"c08.twin", "c08.known"}
+FIRST_WORD_FNS = {"c08.twin", "c08.known", "c15.versions", "c15.known"}
 
 TRUSTED_BASE = [
     "Lean 4.33.0 kernel (thorough tier: leanchecker re-check of the compiled property modules)",
@@ -41,12 +41,32 @@ def _padrows_with_row_props(stream, op, impl_out):
     return stream == "corr.confgen.layoutPairs" and f[0] == "tp.pair" and f[1] == "padrows" and re.search(r";(pr|fx|sz=|sq=)", f[4]) is not None
 
 
+def _d16_last_first_elem(stream, op, impl_out):
+    # D16: only the fixed witness op (the generators skip this shape and say so in their statistics)
+    return op.split("\t")[0] == "c15.known"
+
+
 KNOWN_CLASSES = {
+    "d16_last_first_elem": _d16_last_first_elem,
     # D35: blank data rows are parsed like any row: with present / sequence / fixed / size properties an appended blank row changes the outcome
     "padrows_with_row_props": _padrows_with_row_props,
 }
 
 PROPS = {
+    "C15": {
+        "lean_modules": ["TableauVerif.Props.C15"],
+        "oracles": ["c15.append", "c15.versions", "c15.known"],
+        "streams": [
+            ("spec.C15.append", 3000, 150000),
+            ("corr.protogen.parseHeader", 3000, 100000),
+            ("e2e.C15.versions", 160, 8000, 8),
+        ],
+        "assumptions": [
+            "modelled: protogen's default-mode header parser (see C17); the exporter's positional numbering (tagid := i + 1) is read off exporter.go and exercised by the e2e stream through the parsed descriptors, not modelled",
+            "theorem scope: appending arbitrary columns to sheets whose existing columns are basic (scalar/enum/opaque) cells; sheets with cross-cell aggregates are judged by the specification oracle Spec.C15.extendsBy on the real parser's output (partial)",
+            "header-only: the model takes only the name and type rows; that the implementation reads nothing else (row widths, top-N window) is decided by e2e.C15.versions on XLSX and CSV inputs",
+        ],
+    },
     "C08": {
         "lean_modules": ["TableauVerif.Props.C08"],
         "oracles": ["c08.twin", "c08.known"],
